@@ -8,7 +8,7 @@
   Representation.  Go's `(p.bs, p.bsp)` is kept as a zipper plus the two numbers Go itself keeps:
       p.bs        = back.reverse ++ front            len(p.bs) = blen
       p.bsp       = bsp      (normally = back.length; it exceeds len(p.bs) by one in exactly the two
-                              states Go creates on purpose: the `p.bsp = 1` EOF hack and `errPass`)
+                              states Go creates on purpose: the EOF position of `rune` (`p.bsp = len(p.bs)+1`) and `errPass`)
   so that `p.bs[p.bsp]` is the head of `front`, `p.bs[p.bsp:]` is `front`, and the bytes just
   before the cursor (`p.bs[p.bsp-w:p.bsp]`, needed by `newLit` and the stop-word test) are the
   first `w` elements of `back`.  `p.litBs` is kept reversed in `lit` (`none` = nil slice).
@@ -113,6 +113,17 @@ def runeLen (r : Nat) : Int :=
   else if r < 0x10000 then 3
   else if r ≤ 0x10FFFF then 4
   else -1
+
+/-- `utf8.EncodeRune` for `0 ≤ r ≤ utf8.MaxRune` (surrogates are written as U+FFFD) -/
+def encodeRune (r : Nat) : List Byte :=
+  if r < 0x80 then [UInt8.ofNat r]
+  else if r < 0x800 then [UInt8.ofNat (0xC0 + r / 64), UInt8.ofNat (0x80 + r % 64)]
+  else if 0xD800 ≤ r ∧ r ≤ 0xDFFF then [0xEF, 0xBF, 0xBD]
+  else if r < 0x10000 then
+    [UInt8.ofNat (0xE0 + r / 4096), UInt8.ofNat (0x80 + r / 64 % 64), UInt8.ofNat (0x80 + r % 64)]
+  else
+    [UInt8.ofNat (0xF0 + r / 262144), UInt8.ofNat (0x80 + r / 4096 % 64),
+     UInt8.ofNat (0x80 + r / 64 % 64), UInt8.ofNat (0x80 + r % 64)]
 
 /-! ## the reader -/
 
@@ -222,11 +233,19 @@ def peek (s : St) : M (Nat × St) := do
   | [] => pure (runeSelf, s)
   | b :: _ => pure (b.toNat, s)
 
-/-- `Parser.peekTwo` (fills once only — TODO in the source). -/
-def peekTwo (s : St) : M (Nat × Nat × St) := do
-  let s ← match s.front with
+/-- the loop of `Parser.peekTwo`: `for int(p.bsp+1) >= len(p.bs) { if p.fill() == 0 { break } }` -/
+def peekTwoFill : Nat → St → M St
+  | 0, _ => throw .fuel
+  | fuel + 1, s =>
+    match s.front with
     | _ :: _ :: _ => pure s
-    | _ => (fun x => x.2) <$> s.fill
+    | _ => do
+      let (n, s') ← s.fill
+      if n == 0 then pure s' else peekTwoFill fuel s'
+
+/-- `Parser.peekTwo` -/
+def peekTwo (s : St) : M (Nat × Nat × St) := do
+  let s ← peekTwoFill 3 s
   match s.front with
   | [] => pure (runeSelf, runeSelf, s)
   | [b] => pure (b.toNat, runeSelf, s)
@@ -234,20 +253,37 @@ def peekTwo (s : St) : M (Nat × Nat × St) := do
 
 def isDigit (b : Byte) : Bool := 48 ≤ b.toNat && b.toNat ≤ 57
 
-/-- the scan of `zshNumRange` over `p.bs[p.bsp:]` -/
-def zshScan (rest : List Byte) : Bool :=
-  match rest.dropWhile isDigit with
-  | 45 :: rest =>
-    match rest.dropWhile isDigit with
-    | 62 :: _ => true
-    | _ => false
-  | _ => false
+/-- outcome of one scan of `zshNumRange` over the buffered bytes -/
+inductive Scan where
+  | yes | no | more
+deriving DecidableEq, Repr
 
-/-- `Parser.zshNumRange` (fills once only — TODO in the source). -/
-def zshNum (s : St) : M (Bool × St) := do
-  let s ← if s.front.isEmpty then (fun x => x.2) <$> s.fill else pure s
-  if s.bsp > s.blen then throw (.oob 9)               -- p.bs[p.bsp:]
-  else pure (zshScan s.front, s)
+/-- digits, `-`, digits, `>`; `more` when the bytes run out before a decision -/
+def zshScan (rest : List Byte) : Scan :=
+  match rest.dropWhile isDigit with
+  | [] => .more
+  | c :: rest =>
+    if c != 45 then .no
+    else match rest.dropWhile isDigit with
+      | [] => .more
+      | d :: _ => if d == 62 then .yes else .no
+
+/-- the `for` loop of `Parser.zshNumRange` -/
+def zshLoop : Nat → St → M (Bool × St)
+  | 0, _ => throw .fuel
+  | fuel + 1, s =>
+    if s.bsp > s.blen then throw (.oob 9)             -- p.bs[p.bsp:]
+    else match zshScan s.front with
+      | .yes => pure (true, s)
+      | .no => pure (false, s)
+      | .more =>
+        if s.front.length ≥ 64 then pure (false, s)
+        else do
+          let (n, s') ← s.fill
+          if n == 0 then pure (false, s') else zshLoop fuel s'
+
+/-- `Parser.zshNumRange` -/
+def zshNum (s : St) : M (Bool × St) := zshLoop 66 s
 
 /-- `Parser.errPass` -/
 def errPass (s : St) (e : Err) : St :=
@@ -300,7 +336,9 @@ def runeAfterEsc (b : Byte) (bq : Nat) (s : St) : Step :=
 
 /-- `case '\\'` (the backslash has been consumed) -/
 def runeBackslash (b : Byte) (bq : Nat) (s : St) : M Step :=
-  if s.r == 92 then pure (runeAfterEsc b bq s)
+  if s.r == 92 then do
+    let (_, s) ← s.peek         -- only to have the next byte buffered
+    pure (runeAfterEsc b bq s)
   else do
     let (pk, s) ← s.peek
     if pk == 10 then
@@ -335,8 +373,7 @@ def runeDecode (s : St) : M St := do
 
 /-- `return runeEOF` branch -/
 def runeAtEOF (s : St) : St :=
-  let s := if s.blen == 0 then { s with bsp := 1 } else s
-  { s with r := runeEOF, w := 1 }
+  { s with bsp := s.blen + 1, r := runeEOF, w := 1 }
 
 /-- `b := p.bs[p.bsp]` is at the cursor -/
 def runeBody (b : Byte) (bq : Nat) (s : St) : M Step :=
@@ -392,21 +429,27 @@ def endLit (s : St) : M (List Byte × St) :=
   else if s.w > l.length then throw (.oob 11)          -- p.litBs[:len(p.litBs)-p.w]
   else pure ((l.drop s.w).reverse, { s with lit := none })
 
-/-- the stop-word test of `Parser.next` for the rune `r` just read:
-    `w := uint(utf8.RuneLen(r)); p.bsp >= w && bytes.HasPrefix(p.bs[p.bsp-w:], p.stopAt)` -/
+/-- `for len(p.bs)-int(p.bsp) < need && int(p.bsp) <= len(p.bs) { if p.fill() == 0 { break } }` -/
+def stopFill : Nat → Nat → St → M St
+  | 0, _, _ => throw .fuel
+  | fuel + 1, need, s =>
+    if s.front.length < need ∧ s.bsp ≤ s.blen then do
+      let (n, s') ← s.fill
+      if n == 0 then pure s' else stopFill fuel need s'
+    else pure s
+
+/-- the stop-word test of `Parser.next` for the rune `r` just read: the encoding of `r` must be the
+    head of the stop word and the rest of the stop word must follow in the input -/
 def stopAt (s : St) (r : Nat) : M (Bool × St) :=
-  let w := runeLen r
-  if w < 0 then pure (false, s)                        -- uint(-1) is huge
-  else if s.bsp < w.toNat then pure (false, s)
-  else
-    let k := s.bsp - w.toNat                           -- start of the window in p.bs
-    if k > s.blen then throw (.oob 12)
-    else
-      let window :=
-        if k ≤ s.back.length then (s.back.take (s.back.length - k)).reverse ++ s.front
-        else s.front.drop (k - s.back.length)
-      if s.stopPat.isPrefixOf window then pure (true, { s with r := runeEOF, w := 1 })
-      else pure (false, s)
+  let enc := if r ≤ 0x10FFFF then encodeRune r else []
+  let k := enc.length
+  if k > 0 ∧ s.stopPat.length ≥ k ∧ s.stopPat.take k = enc then do
+    let need := s.stopPat.length - k
+    let s ← stopFill (need + 1) need s
+    if s.bsp ≤ s.blen ∧ (s.stopPat.drop k).isPrefixOf s.front then
+      pure (true, { s with r := runeEOF, w := 1 })
+    else pure (false, s)
+  else pure (false, s)
 
 end St
 
